@@ -419,6 +419,8 @@ class BaseWorkplace(object, metaclass=abc.ABCMeta):
             if self.parent_workplace is not None
             else None,
             max_space_size=self.max_space_size,
+            input_workplace_list=[wp.ID for wp in self.input_workplace_list],
+            output_workplace_list=[wp.ID for wp in self.output_workplace_list],
             cost_list=self.cost_list,
             placed_component_list=[c.ID for c in self.placed_component_list],
             placed_component_id_record=self.placed_component_id_record,
